@@ -99,7 +99,11 @@ static void part_hist() {
     bootsSymEncrypt(in, 1, sk); bootsSymEncrypt(in + 1, 0, sk); bootsSymEncrypt(in + 2, 1, sk); bootsSymEncrypt(in80, 1, sk80); bootsSymEncrypt(in80 + 1, 1, sk80);
     { uint64_t x = 3; for (int q = 0; q < 2; q++) { uint32_t b = (uint32_t)gates::MU8; for (int i = 0; i < 3; i++) { tin[q].a[i] = (Torus32)splitmix(x); b += (uint32_t)tin[q].a[i] * (uint32_t)tiny->s->key[i]; } tin[q].b = (Torus32)b; } }
     prep_polys(3, N);
-    auto probe = [&]() { LweSample *r = new_gate_bootstrapping_ciphertext(ps); std::string o; bootsNAND(r, in, in + 1, &sk->cloud); o = lwe_bytes(r, n); bootsMUX(r, in, in + 1, in + 2, &sk->cloud); o += lwe_bytes(r, n); bootsXOR(r, in + 2, in, &sk->cloud); o += lwe_bytes(r, n); tfhe_bootstrap_FFT(r, sk->cloud.bkFFT, (Torus32)0x12345678, in + 1); o += lwe_bytes(r, n); delete_gate_bootstrapping_ciphertext(r); return o; };
+    auto probe = [&]() { LweSample *r = new_gate_bootstrapping_ciphertext(ps); std::string o; bootsNAND(r, in, in + 1, &sk->cloud); o = lwe_bytes(r, n); bootsMUX(r, in, in + 1, in + 2, &sk->cloud); o += lwe_bytes(r, n); bootsXOR(r, in + 2, in, &sk->cloud); o += lwe_bytes(r, n); tfhe_bootstrap_FFT(r, sk->cloud.bkFFT, (Torus32)0x12345678, in + 1); o += lwe_bytes(r, n); delete_gate_bootstrapping_ciphertext(r);
+        /* and under the k=2 key: a gate and an FFT external product (their accumulators have a middle mask polynomial) */
+        { LweSample *rt = new_LweSample(tiny->lp); bootsNAND(rt, tin, tin + 1, ckt); o += lwe_bytes(rt, 3); bootsMUX(rt, tin, tin + 1, tin, ckt); o += lwe_bytes(rt, 3); delete_LweSample(rt);
+          TLweSample *a = new_TLweSample(tiny->tp); for (int i = 0; i <= 2; i++) for (int j = 0; j < N; j++) a->a[i].coefsT[j] = (Torus32)(i * 104729 + j * 37); tGswFFTExternMulToTLwe(a, &tiny->bkFFT->bkFFT[1], tiny->gp); for (int i = 0; i <= 2; i++) o.append((const char *)a->a[i].coefsT, N * 4); delete_TLweSample(a); }
+        return o; };
     std::vector<Op> ops = {
         {"NAND128", [&] { LweSample *r = new_gate_bootstrapping_ciphertext(ps); bootsNAND(r, in + 1, in + 2, &sk->cloud); delete_gate_bootstrapping_ciphertext(r); }},
         {"ANDNY128", [&] { LweSample *r = new_gate_bootstrapping_ciphertext(ps); bootsANDNY(r, in + 1, in + 2, &sk->cloud); delete_gate_bootstrapping_ciphertext(r); }},
